@@ -95,12 +95,42 @@ def run_fuzz_property(prop, spec, tier, seed):
         minimum = t.get("min_nontrivial_quick", 1) if tier == "quick" else t.get("min_nontrivial_thorough", t.get("min_nontrivial_quick", 1))
         if len(st["distinct"]) < minimum and not confirmed:
             starved.append(f"{label}: {len(st['distinct'])} distinct non-trivial cases < minimum {minimum}")
+    # extra whole programs (thorough tier): e.g. the natural > 4 GiB round trip of C01
+    import subprocess
+    prog_results = []
+    progs = [p for p in spec.get("programs", []) if tier == "thorough" or not p.get("thorough_only")]
+    running = []
+    for pr in progs:
+        try:
+            binary = build.build_target(pr["name"], pr.get("variant", "asan"), fuzzer=False)
+        except build.BuildError as e:
+            print(f"BUILD-ERROR {prop}: {e}", file=sys.stderr)
+            return None
+        running.append((pr, binary, subprocess.Popen([binary] + [str(a) for a in pr.get("args", [])], stdout=subprocess.PIPE, stderr=subprocess.STDOUT, env=fuzz.base_env(known_sigs))))
+    for pr, binary, pp in running:
+        out = pp.communicate()[0].decode(errors="replace")
+        line = out.strip().splitlines()[-1] if out.strip() else ""
+        try:
+            info = json.loads(line)
+        except Exception:
+            info = {"raw": out[-400:]}
+        prog_results.append({"program": pr["name"], "args": pr.get("args", []), "exit": pp.returncode, "result": info})
+        total["evals"] += 1
+        if pp.returncode == 1:
+            art = os.path.join(build.BUILD, "artifacts", prop)
+            os.makedirs(art, exist_ok=True)
+            path = os.path.join(art, f"{pr['name']}__" + "_".join(str(a) for a in pr.get("args", [])) + ".txt")
+            with open(path, "w") as f:
+                f.write(" ".join([binary] + [str(a) for a in pr.get("args", [])]) + "\n" + out[-2000:])
+            all_findings.append({"kind": "violation", "signature": f"{prop}:{pr['name']}", "reason": str(info)[:400], "case": "", "path": path, "target": pr["name"], "reproduced": 1})
+        elif pp.returncode != 0:
+            harness_errors.append(f"program {pr['name']} exited {pp.returncode}: {out[-300:]}")
     wall = time.time() - t0
     excluded = {k: v for k, v in total["classes"].items() if k.startswith("excluded_known:")}
     coverage = {
         "evaluations": total["evals"], "distinct_nontrivial": total["distinct"], "nontrivial": total["nontrivial"],
         "rule": spec["rule"], "samples": parse_samples(total["samples"]), "classes": total["classes"],
-        "per_target": per_target, "excluded_known_findings": excluded,
+        "per_target": per_target, "programs": prog_results, "excluded_known_findings": excluded,
         "inconclusive": {"noise_artifacts": len(noise), "details": [n.get("kind") for n in noise][:20]},
     }
     if spec.get("exhaustive_note"):
